@@ -149,6 +149,10 @@ func execHist(raw json.RawMessage) any {
 			if f, ok := m[st.From]; ok {
 				m[st.Path] = &fstest.MapFile{Data: stripBlock(f.Data, "hash"), Mode: 0644, ModTime: time.Now()}
 			}
+		case "appendNote":
+			if f, ok := m[st.Path]; ok {
+				m[st.Path] = &fstest.MapFile{Data: append(append([]byte{}, f.Data...), []byte("\nnote: do not delete\n")...), Mode: 0644, ModTime: time.Now()}
+			}
 		case "touch":
 			if f, ok := m[st.Path]; ok {
 				m[st.Path] = &fstest.MapFile{Data: f.Data, Mode: 0644, ModTime: time.Now()}
@@ -219,7 +223,7 @@ func chainScenarios(yield func(any)) {
 		}
 		return ents
 	}
-	triggers := []string{"edit-subject", "delete-pem", "strip-key", "truncate", "strip-cert", "touch", "copy-pem"}
+	triggers := []string{"edit-subject", "delete-pem", "strip-key", "truncate", "strip-cert", "touch", "copy-pem", "note+edit"}
 	for tier := 0; tier < 3; tier++ {
 		for _, trig := range triggers {
 			for w := -1; w < 4; w++ {
@@ -255,6 +259,12 @@ func chainScenarios(yield func(any)) {
 						steps = append(steps, Step{Op: "truncate", Path: pemPath(e.path), Keep: 40 + rng.Intn(900)})
 					case "touch":
 						steps = append(steps, Step{Op: "touch", Path: e.path})
+					case "note+edit":
+						c := cloneJ(e.cfg)
+						c["subject"] = c["subject"].(string) + ",OU=Noted"
+						e.cfg = c
+						f := cfgFile(e)
+						steps = append(steps, Step{Op: "appendNote", Path: pemPath(e.path)}, Step{Op: "write", File: &f})
 					case "copy-pem":
 						steps = append(steps, Step{Op: "copyPem", Path: pemPath(e.path), From: pemPath(ents[3].path)})
 					}
@@ -303,7 +313,11 @@ func genHist(yield func(any)) {
 			case 4:
 				steps = append(steps, Step{Op: "strip", Path: pemPath(e.path), Block: choose([]string{"key", "cert", "hash"})})
 			case 5:
-				steps = append(steps, Step{Op: "touch", Path: e.path})
+				if chance(1, 2) {
+					steps = append(steps, Step{Op: "touch", Path: e.path})
+				} else {
+					steps = append(steps, Step{Op: "appendNote", Path: pemPath(e.path)})
+				}
 			case 6:
 				o := ents[rng.Intn(len(ents))]
 				steps = append(steps, Step{Op: "copyPem", Path: pemPath(e.path), From: pemPath(o.path)})
